@@ -30,6 +30,8 @@ MANIFEST = {
     'technique': 'Lean 4 joint invariant over the kernel stack machine and the bracket matcher, composed with symbolic execution of the grammar model; correspondence check; reader oracle',
 }
 
+# complex names: ordinary, and names that start with / are a statement keyword (legal identifiers)
+CNAMES = ['K', 'X', 'c1', 'e10', 'strand1', 'state_A', 'lengthy', 'length', 'complexAB', 'domain-1', 'reaction_3', 'my-strand']
 NAMES = ['a', 'b', 'c1', 't_2', 'x-y', '12', 'B', 'e5', 'inf', 'i', 'M', '_', 't-', '-h', '-', 'x--2', '-_-']
 
 
@@ -75,10 +77,11 @@ def run(res, proof):
             if '(' in s:
                 res.nontriv((tuple(rn), tuple(rs)))
             clear_singletons(ComplexS)
+            cname = rng.choice(CNAMES)
             try:
-                c = ComplexS([doms[x] if x != '+' else '+' for x in rn], rs, name='K')
+                c = ComplexS([doms[x] if x != '+' else '+' for x in rn], rs, name=cname)
                 ks = c.kernel_string
-                text = 'K = ' + ks
+                text = cname + ' = ' + ks
                 back = objectio.read_pil_line(text)
                 ok = (back is c) and [str(x) for x in back.sequence] == rn and list(back.structure) == rs
                 obs = 'same object: %s, %s / %s' % (back is c, ' '.join(map(str, back.sequence)), ''.join(back.structure))
@@ -99,10 +102,28 @@ def run(res, proof):
             l2 = 'kernel.resolve\t' + PG.hx(text + '\n')
             try:
                 [pl] = parse_pil_string(text + '\n')
+                import copy as _copy
+                pl0 = _copy.deepcopy(pl)
                 se, ss = objectio.resolve_kernel_loops(pl[2])
                 o2 = 'ok ' + ' '.join(se) + ' / ' + ''.join(ss)
+                # the parsed statement is an input: it is not consumed, and interpreting it again gives the same answer
+                se2, ss2 = objectio.resolve_kernel_loops(pl[2])
+                if pl != pl0 or (list(se2), list(ss2)) != (list(se), list(ss)):
+                    res.violation('resolve_kernel_loops:consumes-its-input', {'seq': ' '.join(rn), 'sst': ''.join(rs), 'text': text},
+                                  'parsed statement afterwards: %r; second translation: %s / %s' % (pl, ' '.join(se2), ''.join(ss2)),
+                                  'input untouched, same translation')
+                # ... also through read_pil_line on the parsed (list) form, twice: the same singleton both times
+                b1 = objectio.read_pil_line(pl)
+                b2 = objectio.read_pil_line(pl)
+                if b1 is not b2 or [str(x) for x in b2.sequence] != rn or list(b2.structure) != rs or pl != pl0:
+                    res.violation('read_pil_line:parsed-statement-twice', {'seq': ' '.join(rn), 'sst': ''.join(rs), 'text': text},
+                                  'second interpretation differs', 'the same singleton with the same description')
+                del b1, b2
             except Exception as e:
                 o2 = 'err ' + type(e).__name__
+                res.violation('kernel-statement-twice:raises:' + type(e).__name__, {'seq': ' '.join(rn), 'sst': ''.join(rs), 'text': text},
+                              type(e).__name__, 'the parsed statement can be interpreted repeatedly')
+                e = None
             lines.append(l2); impl.append(o2)
         res.count('strands_%d' % (s.count('+') + 1))
         del decoys
